@@ -573,6 +573,14 @@ def clean_old_outputs(crate):
             pass
 
 
+def _oracle_validation():
+    p = os.path.join(WORK, "oracle_validation.json")
+    try:
+        return json.load(open(p))
+    except Exception:
+        return "not run in this workspace (setup.sh runs the native model-vs-git tests)"
+
+
 def run_check(spec, tier, seed):
     pid = spec["id"]
     crate = spec["crate"]
@@ -711,6 +719,7 @@ def run_check(spec, tier, seed):
             "known_findings_seen": [k["id"] for _, k, _ in known_seen],
             "inconclusive": [{"harness": h.name, "reason": r["reason"]} for h, r in inconclusive],
             "problems": problems,
+            "oracle_validation": _oracle_validation(),
         },
         "assumptions": spec.get("assumptions", []),
         "wall_s": round(wall, 2),
